@@ -564,7 +564,10 @@ theorem push_small (ext : Ext) : ∀ (x : SVal) (b b' : B), push ext b x = .ok b
   | .f64 x, b, b', h => by rw [push, ctx_ok] at h; exact pushScalar_small ext _ _ b' h
   | .char x, b, b', h => by rw [push, ctx_ok] at h; exact pushScalar_small ext _ _ b' h
   | .str x, b, b', h => by rw [push, ctx_ok] at h; exact pushScalar_small ext _ _ b' h
-  | .unitStruct x, b, b', h => by rw [push, ctx_ok] at h; exact pushScalar_small ext _ _ b' h
+  | .unitStruct x, b, b', h => by
+    cases b with
+    | unknownVariant p => simp [push, ctx_ok, fail] at h
+    | _ => simp only [push] at h; exact pushNone_small _ b' h
 
 theorem pushElems_small (ext : Ext) : ∀ (xs : SVals) (large : Bool) (el : B) (offs : List Int) (r : B × List Int),
     pushElems ext large el offs xs = .ok r → ViewSmall r.1 → ViewSmall el
